@@ -37,6 +37,9 @@ def run(ctx):
     k13 = rule_P13(ctx)
     from ..effects import rule_G2
     rule_G2(ctx)      # every restored network / member is its own object
+    from ..persist import rule_P2u
+    k2u = rule_P2u(ctx)
+    ctx.require(k2u >= 4, 'P2u saw only %d element-wise writes (floor 4)' % k2u)
     from ..persist import rule_P2s
     k2s = rule_P2s(ctx)
     ctx.require(k2s >= 30, 'P2s saw only %d written values (floor 30)' % k2s)
